@@ -22,6 +22,8 @@ pub struct Norm {
     pub errors: Vec<String>,
     pub nloops: usize,
     pub nrets: usize,
+    /// function-local struct/enum items hoisted to module level (Verus has no local datatypes)
+    pub hoisted: Vec<syn::Item>,
     tmp: usize,
     hint: String,
     names: BTreeMap<String, usize>,
@@ -329,6 +331,21 @@ fn ref_of(base: &Expr) -> Expr {
     parse_quote!(&#base)
 }
 
+/// does the loop body `continue` the loop itself (not a nested one)?
+fn has_continue(stmts: &[Stmt]) -> bool {
+    struct C(bool);
+    impl<'x> Visit<'x> for C {
+        fn visit_expr_continue(&mut self, _: &'x syn::ExprContinue) { self.0 = true; }
+        fn visit_expr_for_loop(&mut self, _: &'x syn::ExprForLoop) {}
+        fn visit_expr_while(&mut self, _: &'x syn::ExprWhile) {}
+        fn visit_expr_loop(&mut self, _: &'x syn::ExprLoop) {}
+        fn visit_expr_closure(&mut self, _: &'x syn::ExprClosure) {}
+    }
+    let mut c = C(false);
+    for s in stmts { c.visit_stmt(s); }
+    c.0
+}
+
 fn span_key(s: Span) -> (usize, usize, usize, usize) {
     (s.start().line, s.start().column, s.end().line, s.end().column)
 }
@@ -358,7 +375,7 @@ impl<'a> Visit<'a> for HasReturn {
 
 impl Norm {
     pub fn new(from_fn: BTreeMap<usize, usize>) -> Self {
-        Norm { rules: vec![], dropped: vec![], errors: vec![], nloops: 0, nrets: 0, tmp: 0, hint: String::new(), names: BTreeMap::new(), let_ctx: None, out_ty: None, from_fn, from_fn_idx: 0 }
+        Norm { rules: vec![], dropped: vec![], errors: vec![], nloops: 0, nrets: 0, hoisted: vec![], tmp: 0, hint: String::new(), names: BTreeMap::new(), let_ctx: None, out_ty: None, from_fn, from_fn_idx: 0 }
     }
 
     fn rule(&mut self, r: &str, sp: Span, note: &str) {
@@ -489,8 +506,20 @@ impl Norm {
             pre.push(w);
             return Some(pre);
         }
-        if let (Src::Range { .. }, []) = (&it.src, ads.as_slice()) {
-            return None; // plain range: native
+        if let (Src::Range { lo, hi }, []) = (&it.src, ads.as_slice()) {
+            if !has_continue(&body) { return None; } // plain range: native
+            let lo = self.bind_simple(lo.clone(), "lo", &mut pre);
+            let hi = self.bind_simple(hi.clone(), "hi", &mut pre);
+            let nxt = match pat { Pat::Ident(pi) => id(&format!("{}__next", pi.ident)), _ => self.fresh("next") };
+            pre.push(parse_quote!(let mut #nxt = #lo;));
+            pre.push(parse_quote!(while #nxt < #hi {
+                let #pat = #nxt;
+                #nxt = #nxt + 1;
+                __vx_loop_body_here!();
+                #(#body)*
+            }));
+            self.rule("N1", sp, "range loop with `continue` -> counting while-loop (increment first)");
+            return Some(pre);
         }
         // N2m: `for [(i,] v[)] in xs.iter_mut()[.enumerate()]`: `*v` stands for `xs[i]` (the only use the rule accepts)
         if let Src::IndexMut { base } = &it.src {
@@ -531,6 +560,20 @@ impl Norm {
         let (idx, lo, hi, elem, notes) = self.lower_iter(it, &mut pre)?;
         self.rule("N2", sp, &format!("for over slice iterator [{}] -> index loop", notes));
         let (pat, elem) = strip_ref_pat(pat, &elem);
+        if has_continue(&body) {
+            // Verus has no `continue` in for-loops: counting while-loop whose increment precedes the body
+            let nxt = id(&format!("{}__next", idx));
+            pre.push(parse_quote!(let mut #nxt = #lo;));
+            pre.push(parse_quote!(while #nxt < #hi {
+                let #idx = #nxt;
+                #nxt = #nxt + 1;
+                let #pat = #elem;
+                __vx_loop_body_here!();
+                #(#body)*
+            }));
+            self.rule("N2", sp, "loop body contains `continue`: counting while-loop (increment first)");
+            return Some(pre);
+        }
         let f: Stmt = parse_quote!(for #idx in #lo..#hi {
             let #pat = #elem;
             __vx_loop_body_here!();
@@ -585,14 +628,13 @@ impl Norm {
         let idx = self.fresh("i");
         let mut hi: Expr = parse_quote!(#base.len());
         let mut lo: Expr = parse_quote!(0);
+        let mut lo_is_zero = true;
         let mut elem: Expr = if *by_ref { parse_quote!(&#base[#idx]) } else { parse_quote!(#base[#idx]) };
-        let mut enumerate = false;
         let mut notes = vec![];
-        // order-sensitive: accept  [skip] [take] [zip] [enumerate]  and [enumerate] after take only.
+        // adapters are applied in source order; `lo` is the underlying index of the current iterator's first item
         while !ads.is_empty() {
             match ads.remove(0) {
                 Adapter::Take(n) => {
-                    if enumerate { return None; }
                     let n = self.bind_simple(n, "take", pre);
                     let h = self.fresh("hi");
                     let lo_c = lo.clone();
@@ -601,30 +643,32 @@ impl Norm {
                     notes.push("take");
                 }
                 Adapter::Skip(k) => {
-                    if enumerate { return None; }
                     let k = self.bind_simple(k, "skip", pre);
                     let l = self.fresh("lo");
-                    pre.push(parse_quote!(let #l = if #k < #hi { #k } else { #hi };));
+                    let lo_c = lo.clone();
+                    pre.push(parse_quote!(let #l = if #k < #hi - #lo_c { #lo_c + #k } else { #hi };));
+                    // items already wrapped by an earlier enumerate/zip keep their own numbering (they use idx - old lo)
                     lo = parse_quote!(#l);
+                    lo_is_zero = false;
                     notes.push("skip");
                 }
                 Adapter::Zip(o) => {
-                    if enumerate || !o.adapters.is_empty() { return None; }
+                    if !o.adapters.is_empty() { return None; }
                     let Src::Index { base: ob, by_ref: obr } = &o.src else { return None };
                     let ob = self.bind_simple(ob.clone(), "zsrc", pre);
                     let h = self.fresh("hi");
-                    // only valid with lo == 0 (no skip before zip)
-                    if notes.contains(&"skip") { return None; }
-                    pre.push(parse_quote!(let #h = if #ob.len() < #hi { #ob.len() } else { #hi };));
+                    let lo_c = lo.clone();
+                    pre.push(parse_quote!(let #h = if #ob.len() < #hi - #lo_c { #lo_c + #ob.len() } else { #hi };));
                     hi = parse_quote!(#h);
-                    let oe: Expr = if *obr { parse_quote!(&#ob[#idx]) } else { parse_quote!(#ob[#idx]) };
+                    let oi: Expr = if lo_is_zero { parse_quote!(#idx) } else { parse_quote!(#idx - #lo_c) };
+                    let oe: Expr = if *obr { parse_quote!(&#ob[#oi]) } else { parse_quote!(#ob[#oi]) };
                     elem = parse_quote!((#elem, #oe));
                     notes.push("zip");
                 }
                 Adapter::Enumerate => {
-                    if notes.contains(&"skip") { return None; }
-                    enumerate = true;
-                    elem = parse_quote!((#idx, #elem));
+                    let lo_c = lo.clone();
+                    let ei: Expr = if lo_is_zero { parse_quote!(#idx) } else { parse_quote!(#idx - #lo_c) };
+                    elem = parse_quote!((#ei, #elem));
                     notes.push("enumerate");
                 }
                 Adapter::Rev | Adapter::Map(_) | Adapter::Flatten => return None,
@@ -947,6 +991,17 @@ impl<'a> Rewriter<'a> {
                 }
             }
         }
+        if let Stmt::Item(it @ (syn::Item::Struct(_) | syn::Item::Enum(_))) = &s {
+            let mut it = it.clone();
+            strip_item_attrs(&mut it);
+            if let syn::Item::Struct(st) = &mut it {
+                st.vis = syn::Visibility::Public(Default::default());
+                for f in st.fields.iter_mut() { f.vis = syn::Visibility::Public(Default::default()); }
+            }
+            self.n.hoisted.push(it);
+            self.n.rule("N12", s.span(), "function-local datatype hoisted to module level");
+            return vec![];
+        }
         if let Stmt::Item(syn::Item::Use(u)) = &s {
             // function-local imports of macro crates are dropped (their macros are rewritten by N8); others are kept
             let txt = quote::ToTokens::to_token_stream(&u.tree).to_string();
@@ -1142,9 +1197,90 @@ impl<'x> Visit<'x> for PatIdents {
     fn visit_pat_ident(&mut self, i: &'x syn::PatIdent) { self.0.push(i.ident.to_string()); }
 }
 
+
+impl<'a> Rewriter<'a> {
+    /// N16: `let x = m.entry(k).or_insert(v);` followed by uses of `*x` / `x.method()` in the same block:
+    ///   the binding becomes `if !m.contains_key(&k) { m.insert(k, v); }`, reads `*x` become `*m.get(&k).unwrap()`,
+    ///   writes `*x = e` become `m.insert(k, e)` (std documents or_insert as "insert v if vacant, then a reference to the value").
+    fn rewrite_entry_bindings(&mut self, b: &mut Block) {
+        let mut i = 0;
+        while i < b.stmts.len() {
+            let found = match &b.stmts[i] {
+                Stmt::Local(l) => match (&l.pat, &l.init) {
+                    (Pat::Ident(pi), Some(init)) if init.diverge.is_none() => match strip_paren(&init.expr) {
+                        Expr::MethodCall(oi) if oi.method == "or_insert" && oi.args.len() == 1 => match strip_paren(&oi.receiver) {
+                            Expr::MethodCall(en) if en.method == "entry" && en.args.len() == 1 && is_simple(&en.receiver) && is_simple(&en.args[0]) =>
+                                Some((pi.ident.clone(), (*en.receiver).clone(), en.args[0].clone(), oi.args[0].clone(), l.span())),
+                            _ => None,
+                        },
+                        _ => None,
+                    },
+                    _ => None,
+                },
+                _ => None,
+            };
+            let Some((x, m, k, v, sp)) = found else { i += 1; continue; };
+            struct Sub { x: Ident, m: Expr, k: Expr, bad: bool }
+            impl VisitMut for Sub {
+                fn visit_expr_mut(&mut self, e: &mut Expr) {
+                    let (m, k) = (self.m.clone(), self.k.clone());
+                    // *x = rhs
+                    if let Expr::Assign(a) = e {
+                        if let Expr::Unary(u) = strip_paren(&a.left) {
+                            if matches!(u.op, syn::UnOp::Deref(_)) {
+                                if let Expr::Path(p) = strip_paren(&u.expr) {
+                                    if p.path.is_ident(&self.x) {
+                                        let mut rhs = (*a.right).clone();
+                                        self.visit_expr_mut(&mut rhs);
+                                        *e = parse_quote!({ #m.insert(#k, #rhs); });
+                                        return;
+                                    }
+                                }
+                            }
+                        }
+                    }
+                    if let Expr::Unary(u) = e {
+                        if matches!(u.op, syn::UnOp::Deref(_)) {
+                            if let Expr::Path(p) = strip_paren(&u.expr) {
+                                if p.path.is_ident(&self.x) { *e = parse_quote!((*#m.get(&#k).unwrap())); return; }
+                            }
+                        }
+                    }
+                    if let Expr::MethodCall(mc) = e {
+                        if let Expr::Path(p) = strip_paren(&mc.receiver) {
+                            if p.path.is_ident(&self.x) {
+                                *mc.receiver = parse_quote!((*#m.get(&#k).unwrap()));
+                                for a in mc.args.iter_mut() { self.visit_expr_mut(a); }
+                                return;
+                            }
+                        }
+                    }
+                    if let Expr::Path(p) = e { if p.path.is_ident(&self.x) { self.bad = true; } }
+                    visit_mut::visit_expr_mut(self, e);
+                }
+            }
+            let mut sub = Sub { x: x.clone(), m: m.clone(), k: k.clone(), bad: false };
+            let mut rest: Vec<Stmt> = b.stmts[i + 1..].to_vec();
+            for st in rest.iter_mut() { sub.visit_stmt_mut(st); }
+            if sub.bad {
+                self.n.errors.push(format!("entry().or_insert() binding `{x}` at source line {} is used other than through `*{x}` / method calls", sp.start().line));
+                i += 1;
+                continue;
+            }
+            let ins: Stmt = parse_quote!(if !#m.contains_key(&#k) { #m.insert(#k, #v); });
+            b.stmts.truncate(i);
+            b.stmts.push(ins);
+            b.stmts.extend(rest);
+            self.n.rule("N16", sp, "let x = m.entry(k).or_insert(v) -> contains_key/insert; *x -> m.get(&k) / m.insert(k, ..)");
+            i += 1;
+        }
+    }
+}
+
 impl<'a> VisitMut for Rewriter<'a> {
     fn visit_block_mut(&mut self, b: &mut Block) {
         self.inline_let_closures(b);
+        self.rewrite_entry_bindings(b);
         let stmts = std::mem::take(&mut b.stmts);
         let mut out = Vec::new();
         for s in stmts {
